@@ -5,9 +5,9 @@
 # /verif/seeded/<Cxx>-<k>/, then run my checks against the change applied to /repo (reverted right after).
 set -u
 ID=$1; K=$2; shift 2; EXTRA="$*"
-WT=/tmp/wt/$ID
+WT=${WT:-/tmp/wt/$ID}
 OUT=$WT/out
-DST=/verif/seeded/$ID-$K
+DST=/verif/seeded/${DSTNAME:-$ID-$K}
 mkdir -p $DST
 cp $OUT/patch$K.diff $DST/patch.diff
 cp $OUT/demo$K.rs $DST/demo.rs
@@ -39,14 +39,14 @@ for id in $ID $EXTRA; do
   RES="$RES$line; "
 done
 python3 - "$ID" "$K" "$SUITE" "$DEMO_WITH" "$DEMO_WITHOUT" "$RES" <<'PY'
-import json, sys
+import json, sys, os
 ID,K,suite,dw,dwo,res = sys.argv[1:7]
 d='/verif/seeded/%s-%s' % (ID,K)
 try: am=json.load(open(d+'/agent_meta.json'))
 except Exception as e: am={"error": str(e)}
 meta={
  "property": ID,
- "source": "independent sub-agent given only the property text and a scratch worktree of /repo",
+ "source": os.environ.get("SEED_SOURCE", "independent sub-agent given only the property text and a scratch worktree of /repo"),
  "summary": am.get("summary"),
  "needs_to_manifest": am.get("needs_to_manifest"),
  "agent_verified": am.get("verified"),
